@@ -358,6 +358,53 @@ class World:
                             f"raised {e!r}", "save")
         self.store[key] = m.copy()
 
+    def op_disk_fault_save(self):
+        """The disk fills up (file-size limit, hysim/faults.py) during a save:
+        it either raises - nothing is then concluded about that stem until it
+        is saved again - or returns, and then the pair loads back.  The grid in
+        memory is untouched (check_all), and the next clean save of the stem
+        succeeds and loads back bit-identical."""
+        import gc
+        from hysim.faults import file_size_limit
+        cs = self.cs
+        g, m, gid = self.pick()
+        d = self.dirs[cs.draw("dir", len(self.dirs))]
+        stem = STEMS[cs.draw("stem", len(STEMS))]
+        fbil = d / (stem + ".bil")
+        key = str(fbil)
+        nbytes = m.nrows * m.ncols * m.dtype.itemsize
+        limit = cs.choice("limit", [0, 1, 40, 150, 260, nbytes // 2,
+                                    max(nbytes - 1, 0), 400, nbytes + 1000])
+        recover = cs.flip("recover", 75)
+        self.log.ev("disk_fault_save", gid, str(fbil.relative_to(self.root)),
+                    limit, recover)
+        failed = None
+        try:
+            with file_size_limit(limit):
+                g.save(self.path_arg(fbil, "sv"))
+        except Exception as e:
+            failed = repr(e)
+        gc.collect()
+        if failed is None:
+            self.ctx.hit("probe.disk_limit_not_reached")
+            self.store[key] = m.copy()
+            self.load_from(key, "disk_fault_save")
+            return
+        self.ctx.hit("fault.disk_full_during_save")
+        self.store.pop(key, None)
+        if not recover:
+            # the torn pair stays on disk; it is never read through the model
+            return
+        try:
+            g.save(self.path_arg(fbil, "sv2"))
+        except Exception as e:
+            raise Violation("save_failed", f"grid#{gid} ({m.dtype}) save after "
+                            f"an earlier save of that stem hit a full disk "
+                            f"raised {e!r}", "disk_fault_save")
+        self.store[key] = m.copy()
+        self.ctx.hit("probe.clean_save_after_disk_fault")
+        self.load_from(key, "disk_fault_save")
+
     def load_from(self, key, opkind):
         from hydrodiy.gis.grid import Grid
         cs = self.cs
@@ -1069,6 +1116,7 @@ class World:
 
 
 OPS = [("new", 8, None), ("mutate", 10, "g"), ("save", 9, "g"),
+       ("disk_fault_save", 3, "g"),
        ("load", 9, "s"), ("foreign", 4, None), ("dict_roundtrip", 5, "g"),
        ("clone", 6, "g"), ("clone_dtype", 5, "g"), ("clip", 6, "g"),
        ("chdir", 2, None), ("cat_caller_edits_grid", 2, "c"),
